@@ -2,12 +2,12 @@ SPECIFICATION Spec
 CONSTANTS
   Tables <- MCTables
   TokText <- MCTokText
-  TokSets <- TokFull
+  TokSets <- TokHist
   MaxArgs = 2
   Flags0 <- MCFlags0
   Int0 <- MCInt0
-  TableSet <- TS12
-  Histories <- HistCanon
+  TableSet <- TS1
+  Histories <- Hist4
   Argvs <- ArgvsBounded
   Emit <- EmitJson
 INVARIANTS TypeOK ReadingIsFunction RankBounded ForeignBitsKept PrePassOnlyPre NoPrePassNoPre IntFromLine NonOptionsUntouchedInOrder ArgvCompacted CompactPrefix ArgvShrunk
